@@ -11,6 +11,14 @@ CHECKS = {
          "deterministic simulation (star topology ether, harness-placed receivers, reference-peer packets with position-accuracy flag) + independent geometry oracle"),
  "C08": ("net", "5", "A real router with a skewed clock receives seeded histories of all packet types from phantom sources with timestamps behind / equal / ahead of its clock, across the 2^32 ms wrap and across virtual gaps of several LocTE lifetimes; after every processed packet the table is compared with a reference location table; TST order laws are checked on boundary-biased pairs.",
          "deterministic simulation (virtual clock with per-station skew, wrap-around epoch, reference-peer histories) + lock-step reference location table"),
+ "C09": ("sec", "5", "Seeded histories of add-root/add-AA/add-AT/verify-chain calls, received signed messages and issuing-API calls mixing genuine certificates with forged, re-signed, permission-escalated, wrongly-issued and expired ones, on a virtual clock crossing validity boundaries; after every operation every entry of the trust store must pass an independent chain verifier (raw ecdsa), accepted messages must lie within the ticket's permissions and validity, issued certificates within the issuer's permissions.",
+         "deterministic simulation (virtual clock, seeded ECDSA entropy, byzantine certificate/message histories) + independent chain verifier as oracle"),
+ "C12": ("ldm", "5", "Seeded operation/clock-advance histories over IF.LDM.3/IF.LDM.4 (register, add, update, delete, query, maintenance reactive/threaded/explicit) on both back-ends, stepped in lock-step with a reference map with registration gating and expiry.",
+         "deterministic simulation (virtual clock incl. monotonic, parked maintenance thread, TinyDB on a scratch file) + lock-step reference store model"),
+ "C13": ("ldm", "5", "The C12 histories with heterogeneous CAM/DENM/VAM stores on Dictionary and TinyDB side by side; every request (8 operators, and/or, all type selections, order tuples) is compared with a brute-force predicate over the reference map and between back-ends. The filter space is sampled.",
+         "deterministic simulation (two real back-ends in lock-step) + brute-force reference predicate and differential comparison"),
+ "C14": ("ldm", "5", "Seeded interleavings of subscribe/unsubscribe, register/deregister, add and virtual clock advance with several consumers; reactive, periodic (parked thread) and explicit attendance; every callback invocation is compared with a reference subscription model (matching objects, order, multiplicity, interval at 1 s resolution, silence after unsubscribe/deregistration, result codes).",
+         "deterministic simulation (virtual clock, parked periodic service thread) + reference subscription model"),
  "C19": ("dcc", "5", "Seeded timed histories (CBR samples, packet offers, delta updates on a virtual clock) drive the real DccReactive/DccAdaptive/GateKeeper step by step against an independent reference of TS 102 687 Annex A, clause 5.4 and equations B.1/B.2.",
          "deterministic simulation (virtual clock, seeded channel-load and packet-arrival processes) + lock-step reference model"),
  "C20": ("net", "5", "Originated frames of every transport type with boundary-biased requested lifetimes / hop limits are judged on the wire (LT value <= request, largest representable, non-zero from 50 ms, RHL/MHL rules); injected packets with all 256 LT codes and RHL > MHL are judged at the receiver (remaining lifetime, decode, discard). The requested-lifetime space is sampled with measured reach, not exhaustively swept.",
@@ -26,6 +34,8 @@ man = {
            "source_commits": [], "add_only": True},
  "engines": [
   {"name": "net", "path": "fsim/netsim.py", "serves_properties": ["C01", "C02", "C06", "C07", "C08", "C20"], "kind_free_text": "discrete-event virtual-time kernel + simulated ether with several real GN/BTP stacks"},
+  {"name": "sec", "path": "fsim/secsim.py", "serves_properties": ["C09"], "kind_free_text": "real CertificateLibrary/VerifyService/SignService on a virtual clock with seeded ECDSA (fsim/seccrypto.py: deterministic PKI factory, forgery toolkit, independent verifier)"},
+  {"name": "ldm", "path": "fsim/ldmsim.py", "serves_properties": ["C12", "C13", "C14"], "kind_free_text": "real LDM (factory, IF.LDM.3/4, service and maintenance variants, both back-ends) on a virtual clock with reference store/filter/subscription models"},
   {"name": "dcc", "path": "fsim/props/c19.py", "serves_properties": ["C19"], "kind_free_text": "virtual-clock driver for DCC entities with an independent reference (fsim/refdcc.py)"},
  ],
  "checks": [],
